@@ -225,6 +225,22 @@ uint64_t api_call(const Op &op, const Vals &v_in, const Prefill &pf, bool &ok) {
             d.u64(st.dictBytes);
             d.u64(st.indexBytes);
             d.u64(st.totalBytes);
+            // the dictionary as an object: build, every index up to well past its size (documented: 0
+            // beyond the size), find; then a smaller build on the same object
+            varintDict *dict = varintDictCreate();
+            if (dict) {
+                for (int round = 0; round < 2; round++) {
+                    size_t cnt = round == 0 ? n : std::max<size_t>(1, n / 3);
+                    int rc = varintDictBuild(dict, in, cnt);
+                    d.u64((uint64_t)rc);
+                    d.u64(dict->size);
+                    for (uint32_t i = 0; i < dict->size + 40; i++) d.u64(varintDictLookup(dict, i));
+                    d.u64((uint64_t)varintDictFind(dict, in[0]));
+                    d.u64((uint64_t)varintDictFind(dict, in[n - 1] ^ 1));
+                    d.u64(varintDictEncodedSizeWithDict(dict, cnt));
+                }
+                varintDictFree(dict);
+            }
         } else {
             Buf dst(need + 4096, k == "dict.encode" ? pf : Prefill(), 1);
             size_t w = varintDictEncode(dst.p, in, n);
